@@ -14,6 +14,8 @@ dft/*       DiscreteFourierTransform / ...Inverse._call_numpy and _call_pyfftw o
 ft-definition/*  BOUNDED (labelled so, never counted as proved): FourierTransform / FourierTransformInverse of both back-ends against the defining quadrature
             sum on every basis vector of small grids (all axes subsets x per-axis shifts x sign x real / complex / half-complex): decides the pre- /
             post-processing phase factors, inverse(forward(x)) == x, in-place == out-of-place, numpy == pyfftw on those shapes
+wavelet-roundtrip/*  BOUNDED: W.inverse(W(e)) == e on every basis vector of small grids for wavelet families x levels x all padding modes x axes subsets,
+            adjoint identity on white noise for orthogonal wavelets with periodic extension
 wavelet-adjoint/*  WaveletTransform.adjoint / WaveletTransformInverse.adjoint for an orthogonal wavelet: scale * partner with scale = 1 / w resp. w,
             w = cell volume over ALL axes (also for axes subsets), partner built on the very space with the same wavelet / levels / padding / axes
 """
@@ -39,7 +41,7 @@ META = {
         'carries its default weighting (constant = cell volume); Operator.__rmul__ by its C05 contract (scalar * operator)',
     ],
     'assumptions': ['A1', 'A7'],
-    'not_decided': ['the FFT kernels (numpy.fft / pyfftw) and PyWavelets themselves; wavelet coefficient flattening / cropping', 'continuous FourierTransform: convergence to the analytic transform of a Gaussian',
+    'not_decided': ['the FFT kernels (numpy.fft / pyfftw) and PyWavelets themselves; wavelet coefficient flattening / cropping for ARBITRARY shapes (bounded wavelet-roundtrip units only)', 'continuous FourierTransform: convergence to the analytic transform of a Gaussian',
                     'pre- / post-processing phase factors (complex exponentials) for ARBITRARY shapes: decided only by the bounded ft-definition units on the listed small shapes',
                     'plan / temporary reuse in pyfftw_bindings beyond one call', 'rounding'],
 }
@@ -480,6 +482,29 @@ def unit_ft_definition(shape, tier):
                 kind='B', config={'shape': list(shape)}, bounded_in='grid shapes listed in the unit names (each axis <= 8 points), all basis vectors')
 
 
+def unit_wavelet_roundtrip(shape, tier):
+    """BOUNDED stand-in (labelled bounded, never counted as proved): W.inverse(W(e)) == e on EVERY basis vector of small grids (the transform is linear for
+    pad_const = 0: a basis decides all inputs of that shape up to rounding) for wavelet families x levels (1, 2, maximal) x all 9 padding modes x axes subsets;
+    for orthogonal wavelets with periodic extension additionally the adjoint identity of W and W.inverse on white noise.  Decides the coefficient flattening /
+    unflattening and cropping of WaveletTransform._call / WaveletTransformInverse._call (PyWavelets itself is external)."""
+    def run(ctx):
+        from contracts import replay_c18
+        for cfg in replay_c18.wavelet_cases(tier):
+            if tuple(cfg['shape']) != tuple(shape):
+                continue
+            try:
+                bad, evals = replay_c18.wavelet_check(cfg)
+            except Exception as e:
+                bad, evals = 'evaluation raised %s: %s' % (type(e).__name__, e), 0
+            if not bad and evals == 0:
+                continue
+            ctx.evals += max(evals - 1, 0)
+            ctx.bounded('wavelet reconstruction inverts decomposition on every basis vector; adjoint identity for orthogonal wavelets with periodic extension', not bad, cfg, detail=bad)
+    return Unit('wavelet-roundtrip/shape=%s' % 'x'.join(map(str, shape)), run, funcs=[WAV + 'WaveletTransform._call', WAV + 'WaveletTransformInverse._call',
+                WAV + 'WaveletTransform.adjoint', WAV + 'WaveletTransformInverse.adjoint', 'odl.trafos.backends.pywt_bindings:precompute_raveled_slices'],
+                kind='B', config={'shape': list(shape)}, bounded_in='grid shapes listed in the unit names, wavelets %s, all basis vectors' % (', '.join(__import__('contracts.replay_c18', fromlist=['x']).WAVELETS),))
+
+
 def unit_canary():
     """must fail: conj(F(x)) claimed equal to N * ifftn(x) for complex x"""
     def run(ctx):
@@ -516,5 +541,11 @@ def units(tier, seed):
             shapes.append(tuple(cfg['shape']))
     for shp in shapes:
         us.append(unit_ft_definition(shp, tier))
+    shapes = []
+    for cfg in replay_c18.wavelet_cases(tier):
+        if tuple(cfg['shape']) not in shapes:
+            shapes.append(tuple(cfg['shape']))
+    for shp in shapes:
+        us.append(unit_wavelet_roundtrip(shp, tier))
     us.append(unit_canary())
     return us
